@@ -44,10 +44,11 @@ ENTRY = {
     "C01": lambda idx: cg.roots(idx, J + "::gjk_distance_jolt"),
     "C02": lambda idx: cg.roots(idx, J + "::gjk_intersection_jolt", L + "::gjk_intersection_libccd", "distance3d.mpr::mpr_intersection",
                                 N1 + "::gjk_nesterov_accelerated_intersection", N2 + "::gjk_nesterov_accelerated_primitives_intersection"),
-    "C03": lambda idx: _collider_methods(idx, ("support_function", "first_vertex", "center", "__call__", "__init__"))
-                       + [f for f in idx.module("distance3d.geometry").functions.values() if f.name.startswith("support_function_")],
-    "C04": lambda idx: _collider_methods(idx, ("aabb", "__init__")) + [f for f in idx.module("distance3d.containment").functions.values() if f.name.endswith("_aabb")]
-                       + cg.roots(idx, HY + "_rigid_body::RigidBody.aabb"),
+    "C03": lambda idx: _collider_methods(idx, ("support_function", "first_vertex", "center", "__call__", "__init__", "update_pose"))
+                       + [f for f in idx.module("distance3d.geometry").functions.values() if f.name.startswith("support_function_")]
+                       + cg.roots(idx, "distance3d.mesh::make_convex_mesh"),      # builds the outward-wound triangles mesh colliders are made of
+    "C04": lambda idx: _collider_methods(idx, ("aabb", "__init__", "update_pose")) + [f for f in idx.module("distance3d.containment").functions.values() if f.name.endswith("_aabb")]
+                       + list(idx.cls(HY + "_rigid_body::RigidBody").methods.values()),
     "C05": lambda idx: _all_of(idx, "distance3d.aabb_tree"),
     "C06": lambda idx: _all_of(idx, "distance3d.broad_phase", "distance3d.self_collision", "distance3d.urdf_utils", "distance3d.aabb_tree")
                        + _collider_methods(idx, ("update_pose", "aabb", "__init__")),
@@ -58,10 +59,10 @@ ENTRY = {
     "C10": lambda idx: _pkg(idx, "distance3d.distance"),
     "C11": lambda idx: _pkg(idx, "distance3d.distance"),
     "C12": lambda idx: _pkg(idx, "distance3d.distance") + cg.roots(idx, *NARROW_ENTRIES) + _collider_methods(idx, ("support_function", "aabb", "__init__", "update_pose"))
-                       + _all_of(idx, "distance3d.containment", "distance3d.containment_test")
+                       + _all_of(idx, "distance3d.containment", "distance3d.containment_test") + cg.roots(idx, "distance3d.mesh::make_convex_mesh")
                        + [f for f in idx.module("distance3d.geometry").functions.values() if f.name.startswith("support_function_")],
     # "...agree with the collider's support function": the closed-form support functions are the reference the predicates must agree with
-    "C13": lambda idx: [f for f in idx.module("distance3d.containment_test").functions.values() if f.name.startswith("points_in_")]
+    "C13": lambda idx: cg.roots(idx, "distance3d.mesh::make_convex_mesh") + [f for f in idx.module("distance3d.containment_test").functions.values() if f.name.startswith("points_in_")]
                        + [f for f in idx.module("distance3d.geometry").functions.values() if f.name.startswith("support_function_")],
     "C14": lambda idx: _all_of(idx, COLL, "distance3d.mesh"),
     "C15": lambda idx: _all_of(idx, HY + "_tetrahedron_intersection", HY + "_halfplanes", HY + "_barycentric_transform", HY + "_interface", HY + "_forces"),
